@@ -13,6 +13,8 @@ OneF(p, a, f) == [m |-> p[1], o |-> p[2], args |-> a, observes |-> R!ObservesF(p
 One(p, a) == OneF(p, a, "none")
 \* every (method, outcome) once more with the connection dropped between the handler and the response
 Singles == {<<One(p, a)>> : p \in Pairs, a \in ArgClasses} \cup {<<OneF(p, "typical", "drop-after-handler")>> : p \in Pairs}
+           \* ... and, two-way methods, with a caller that accepts only a few bytes of reply, followed by an ordinary call
+           \cup {<<OneF(p, "typical", "reply-over-limit"), One(q, "typical")>> : p \in {x \in Pairs : ~R!Oneway(x[1])}, q \in {<<"add", "return">>, <<"get", "declared">>}}
 Seqs == IF MaxLen < 2 THEN {} ELSE {<<One(p, "typical"), One(q, "typical")>> : p \in Pairs, q \in Pairs}
 Cases == Singles \cup Seqs
 ASSUME JsonSerialize("rpc_cases.json", SetToSeq(Cases))
